@@ -1875,8 +1875,10 @@ func (s *ServiceNode) IsSameService(other *ServiceNode) bool {
 		!reflect.DeepEqual(s.ServiceTaggedAddresses, other.ServiceTaggedAddresses) ||
 		s.ServicePort != other.ServicePort ||
 		!s.ServicePorts.IsSame(other.ServicePorts) ||
+		s.ServiceSocketPath != other.ServiceSocketPath ||
 		!reflect.DeepEqual(s.ServiceMeta, other.ServiceMeta) ||
 		!reflect.DeepEqual(s.ServiceWeights, other.ServiceWeights) ||
+		!reflect.DeepEqual(s.ServiceLocality, other.ServiceLocality) ||
 		s.ServiceEnableTagOverride != other.ServiceEnableTagOverride ||
 		!reflect.DeepEqual(s.ServiceProxy, other.ServiceProxy) ||
 		!reflect.DeepEqual(s.ServiceConnect, other.ServiceConnect) ||
